@@ -48,6 +48,7 @@ def run(ctx):
   # a local read on a path that has not bound it raises UnboundLocalError instead of producing the result (analysis shared with C18)
   from . import c18 as _c18
   n_def = _c18.rule_defined(ctx, "R-C20-DEFINED", "C20")
+  n_att = _c18.rule_attrs(ctx, "R-C20-ATTRS", "C20")
   ctx.expect("R-C20-DEFINED", 22, "functions of rng")
   ctx.expect("R-C20-WIDTH", 13, "13 concrete RandomBits bodies")
   ctx.expect("R-C20-PURE", 13, "13 concrete RandomBits bodies")
